@@ -120,6 +120,8 @@ func (e *Enc) callEnv(callee *ssa.Function, sig *types.Signature, params []strin
 	env := &evalEnv{names: map[string]binding{}, heap: post, old: pre, owner: "call"}
 	if callee != nil && callee.Pkg != nil {
 		env.pkg = callee.Pkg.Pkg
+	} else if callee == nil && e.fn.Pkg != nil {
+		env.pkg = e.fn.Pkg.Pkg // function-type (sig) and interface contracts: package-level names of the calling package
 	}
 	for i, n := range params {
 		if i < len(args) {
@@ -660,7 +662,17 @@ func (e *Enc) evalAtom(a string, env *evalEnv) tv {
 						if g, ok := p.Members[a].(*ssa.Global); ok {
 							if e.w.NonNilGlobal[g] {
 								// init-only package-level error value: the same fixed object the code sees when it loads it
-								return tv{Val{app("obj", ilit(globalID("val:"+g.String()))), "Ref"}, o.Type()}
+								gid := ilit(globalID("val:" + g.String()))
+								if !e.gidNoted[gid] {
+									if e.gidNoted == nil {
+										e.gidNoted = map[string]bool{}
+									}
+									e.gidNoted[gid] = true
+									e.globalFacts++
+									e.assert(app("=", "(rootid (obj "+gid+"))", gid)) // a fixed (negative) identity: older than every allocation
+									e.globalFacts--
+								}
+								return tv{Val{app("obj", gid), "Ref"}, o.Type()}
 							}
 							gv := e.val(g)
 							return tv{Val{e.load(env.heap, gv.T, g, o.Type()), e.sortOf(o.Type())}, o.Type()}
